@@ -1,17 +1,159 @@
 package main
 
+import (
+	"go/ast"
+	"go/token"
+	"go/types"
+)
+
 func init() {
 	register(&Property{
 		ID:         "C33",
 		Level:      "other",
-		Technique:  "forward CFG reachability from every table mutation to error returns (commit-after-validate) + lock-prologue dominance over every registry field access (static)",
-		Explain:    "Decides structural necessary conditions of `registries behave like a conflict-checking name table`: (1) in RegisterFile, RegisterMessage, RegisterEnum, RegisterExtension and the shared register helper no error return is reachable after any mutation of the registry tables (insertions, counters, file lists; a helper that inserts counts as a mutation on its success continuation), so a rejected registration leaves nothing behind and lookups/counters/ranges stay mutually consistent; (2) every method of Files/Types touches the tables only after the global-registry lock prologue, with the write lock when it (or a helper it calls) mutates.",
+		Technique:  "forward CFG reachability from every table mutation to error returns (commit-after-validate) + lock-prologue dominance over every registry field access + exhaustiveness of search loops and unfiltered lookup keys (static)",
+		Explain:    "Decides structural necessary conditions of `registries behave like a conflict-checking name table`: (1) in RegisterFile, RegisterMessage, RegisterEnum, RegisterExtension and the shared register helper no error return is reachable after any mutation of the registry tables (insertions, counters, file lists; a helper that inserts counts as a mutation on its success continuation), so a rejected registration leaves nothing behind and lookups/counters/ranges stay mutually consistent; (2) every method of Files/Types touches the tables only after the global-registry lock prologue, with the write lock when it (or a helper it calls) mutates; (3) every search loop of the lookup functions continues with the next element on a miss (no break, no nil return inside the loop), so a registered descriptor is found wherever it is declared; (4) the by-package readers use the package name as given (no early return under a predicate on it), matching the key RegisterFile stores.",
 		NotCovered: "which conflicts are detected (name, path, package/declaration, extension number) and the results of lookups on concrete histories; custom (non-global) registries are not synchronised by design.",
 		Quick:      all("./reflect/protoregistry"),
 		Thorough:   all("./..."),
 		Run: func(c *Ctx) {
 			c.ruleCommitAfterValidate("R-COMMIT-AFTER-VALIDATE")
 			c.ruleRegistryLock("R-REG-LOCK")
+			c.ruleSearchExhaustive("R-SEARCH-EXHAUSTIVE", "reflect/protoregistry", 2)
+			c.ruleLookupKeyUnfiltered("R-LOOKUP-KEY-UNFILTERED")
 		},
 	})
+}
+
+// R-SEARCH-EXHAUSTIVE: a descriptor that is registered is found wherever it is
+// declared. The registry's lookup functions search by loops that return on a
+// hit; on a miss the loop must go on to the next element — a `break` (or a
+// return of nil) inside such a loop makes every element after the first miss
+// unreachable (values of all but one nested enum, …).
+func (c *Ctx) ruleSearchExhaustive(rule string, pkg string, floor int) {
+	R, P := c.R, c.P
+	R.Rule(rule, "every search loop of the registry (a loop whose body returns a found descriptor) continues with the next element on a miss: no break and no nil return inside the loop", floor)
+	for _, fi := range P.FuncsIn(pkg) {
+		if fi.Decl.Body == nil {
+			continue
+		}
+		info := fi.Info()
+		i := 0
+		walk(fi.Decl.Body, func(n ast.Node) bool {
+			var body *ast.BlockStmt
+			switch l := n.(type) {
+			case *ast.ForStmt:
+				body = l.Body
+			case *ast.RangeStmt:
+				body = l.Body
+			}
+			if body == nil {
+				return true
+			}
+			// does the body return a non-nil, non-constant value (a hit)?
+			hit := false
+			var early ast.Node
+			var scan func(n ast.Node, inNested bool)
+			scan = func(n ast.Node, inNested bool) {
+				walk(n, func(x ast.Node) bool {
+					switch s := x.(type) {
+					case *ast.ForStmt, *ast.RangeStmt, *ast.SwitchStmt, *ast.TypeSwitchStmt, *ast.SelectStmt:
+						if x != n {
+							// break inside these belongs to them; returns still count
+							walk(x, func(y ast.Node) bool {
+								if rs, ok := y.(*ast.ReturnStmt); ok {
+									for _, r := range rs.Results {
+										if !isNilIdent(info, r) {
+											if _, isC := constBool(info, r); !isC {
+												hit = true
+											}
+										}
+									}
+								}
+								return true
+							})
+							return false
+						}
+					case *ast.ReturnStmt:
+						allNil := len(s.Results) > 0
+						for _, r := range s.Results {
+							if !isNilIdent(info, r) {
+								allNil = false
+								if _, isC := constBool(info, r); !isC {
+									hit = true
+								}
+							}
+						}
+						if allNil && early == nil {
+							early = s
+						}
+					case *ast.BranchStmt:
+						if s.Tok == token.BREAK && s.Label == nil && early == nil {
+							early = s
+						}
+					}
+					return true
+				})
+			}
+			scan(body, false)
+			if !hit {
+				return true
+			}
+			i++
+			construct := fi.Key + " search loop#" + itoa(i)
+			if early != nil {
+				R.Bad(rule, construct, P.Pos(early), "the search loop is left on a miss (break / nil return) instead of continuing with the next element: descriptors declared in the remaining elements are never found although they are registered")
+			} else {
+				R.OK(rule, construct, P.Pos(n), "continues on a miss")
+			}
+			return true
+		})
+	}
+}
+
+// R-LOOKUP-KEY-UNFILTERED: RegisterFile records every file under its package
+// name as it is (the empty name for files without a package clause). The
+// by-package readers must use the caller's key as it is too: an early return
+// under a predicate on the key hides the files stored under keys failing it.
+func (c *Ctx) ruleLookupKeyUnfiltered(rule string) {
+	R, P := c.R, c.P
+	R.Rule(rule, "Files.NumFilesByPackage and RangeFilesByPackage look their key up as given: no return is guarded by a predicate on the package name", 2)
+	for _, key := range []string{"reflect/protoregistry.(*Files).NumFilesByPackage", "reflect/protoregistry.(*Files).RangeFilesByPackage"} {
+		fi := c.need(rule, key)
+		if fi == nil {
+			continue
+		}
+		info := fi.Info()
+		var nameObj types.Object
+		for _, f := range fi.Decl.Type.Params.List {
+			for _, nm := range f.Names {
+				if namedTypeName(info.TypeOf(nm)) == "reflect/protoreflect.FullName" {
+					nameObj = info.Defs[nm]
+				}
+			}
+		}
+		var bad ast.Node
+		walk(fi.Decl.Body, func(n ast.Node) bool {
+			is, ok := n.(*ast.IfStmt)
+			if !ok {
+				return true
+			}
+			mentions := false
+			walk(is.Cond, func(x ast.Node) bool {
+				if id, ok := x.(*ast.Ident); ok && info.Uses[id] == nameObj {
+					mentions = true
+				}
+				return true
+			})
+			if !mentions {
+				return true
+			}
+			for _, st := range is.Body.List {
+				if _, isRet := st.(*ast.ReturnStmt); isRet && bad == nil {
+					bad = is
+				}
+			}
+			return true
+		})
+		R.Check(bad == nil && nameObj != nil, rule, fi.Key+" key", P.Pos(fi.Decl), "key used as given", "an early return is guarded by a predicate on the package name: files registered under names failing it (e.g. the empty name of files without a package clause) are hidden from the by-package API although RegisterFile stored them")
+	}
 }
